@@ -79,7 +79,7 @@ fn damage_text(line: &str, d: &Damage) -> String {
     let i = 1 + idx(d.pos, n);
     // words put in place of / next to another one: array cells and calls where a
     // plain name stands, values of the other kind, stray punctuation and keywords
-    const SUBST: &[&str] = &["VV(1)", "K$(2)", "C", "C$", "1", "\"s\"", "(", ")", ",", ";", "=", "+", "-", "TO", "STEP", "THEN", "ELSE", "QQ(1)", "NOT", ":"];
+    const SUBST: &[&str] = &["VV(1)", "K$(2)", "C", "C$", "1", "\"s\"", "(", ")", ",", ";", "=", "+", "-", "TO", "STEP", "THEN", "ELSE", "QQ(1)", "NOT", ":", "QQ(1,2)", "JJ(1)", "ZZ$(1)", "KK(1)"];
     match d.kind % 8 {
         5 | 6 => {
             words[i] = SUBST[(d.line as usize / 7 + d.pos as usize) % SUBST.len()].to_string();
@@ -361,11 +361,11 @@ pub fn property() -> Property {
         prop_family("lines-damaged", 20_000, 1_000_000, |_| line_case(0, true), check),
         prop_family("programs-well-typed", 4_000, 150_000, |_| prog_case(0, false), check),
         prop_family("programs-ill-typed", 3_000, 100_000, |_| prog_case(10, false), check),
-        prop_family("programs-damaged", 3_000, 100_000, |_| prog_case(0, true), check),
+        prop_family("programs-damaged", 8_000, 200_000, |_| prog_case(0, true), check),
     ];
     Property {
         id: "C06",
-        rule: "Single numbered lines (1-3 statements from every statement template incl. IF/THEN/ELSE, FOR, NEXT, GOTO, GOSUB, READ, DATA, DIM, DEF, INPUT, calls) and small programs (DEFs first, each function defined at most once; one case in three hands the lines to the analyzer in a shuffled file order) in three modes: well-typed, ill-typed (kind errors injected in operands, subscripts, FOR bounds, assignment targets, arguments) and damaged (a word deleted / duplicated / swapped, the line truncated, a `$` added or stripped, a numeral given a fractional part, or a word replaced by / preceded with an array cell, a call, a value of the other kind, stray punctuation or a keyword). Direction 1: when the analyzer reports no error, the program is executed by RUN and, after executing its DEF lines, by GOTO to each of its first 24 lines under three variable environments (all unset, all 1/\"a\", mixed) with mixed numeric/text replies, 300 calls each; no execution may end in a syntax error, TYPE MISMATCH or UNDEF'D STATEMENT. Direction 2: every file line the analyzer rejects and whose text contains no IF/THEN/ELSE/GOTO/GOSUB/RETURN/NEXT/END/STOP/INPUT/DEF and no user-function name is entered alone into a fresh interpreter and RUN; it must fail. Each execution is one evaluation. Non-trivial: an accepted program with >= 4 executions, or a rejected straight-line line confirmed; distinct by text.",
+        rule: "Single numbered lines (1-3 statements from every statement template incl. IF/THEN/ELSE, FOR, NEXT, GOTO, GOSUB, READ, DATA, DIM, DEF, INPUT, calls) and small programs (DEFs first, each function defined at most once; one case in three hands the lines to the analyzer in a shuffled file order) in three modes: well-typed, ill-typed (kind errors injected in operands, subscripts, FOR bounds, assignment targets, arguments) and damaged (a word deleted / duplicated / swapped, the line truncated, a `$` added or stripped, a numeral given a fractional part, or a word replaced by / preceded with an array cell, a call, a value of the other kind, stray punctuation, a keyword, or a call of one of the program's functions with the wrong number or kind of arguments). Direction 1: when the analyzer reports no error, the program is executed by RUN and, after executing its DEF lines, by GOTO to each of its first 24 lines under three variable environments (all unset, all 1/\"a\", mixed) with mixed numeric/text replies, 300 calls each; no execution may end in a syntax error, TYPE MISMATCH or UNDEF'D STATEMENT. Direction 2: every file line the analyzer rejects and whose text contains no IF/THEN/ELSE/GOTO/GOSUB/RETURN/NEXT/END/STOP/INPUT/DEF and no user-function name is entered alone into a fresh interpreter and RUN; it must fail. Each execution is one evaluation. Non-trivial: an accepted program with >= 4 executions, or a rejected straight-line line confirmed; distinct by text.",
         assumptions: vec![
             "branch forcing is by start line and variable environment, not exhaustive over conditions",
             "starting execution at any line after the DEFs ran is a legitimate execution of the program",
